@@ -2226,5 +2226,24 @@ theorem diagonalIter_spec (m : Matrix α) (h : m.Inv) :
     obtain ⟨i, hi, rfl⟩ := hp
     exact ⟨by omega, by omega⟩
 
+/-! ## 12. what the property itself demands after a panicking in-place map -/
+
+theorem cell_mapFirst (k : Nat) (g : α → Nat → Nat → α) (rs : Rows α) (i j : Nat) :
+    Rows.cell (Rows.mapFirst k g rs) i j =
+      (Rows.cell rs i j).map fun x => if i * Rows.ncols rs + j < k then g x i j else x := by
+  unfold Rows.cell Rows.mapFirst
+  simp only [List.getElem?_mapIdx]
+  cases rs[i]? with
+  | none => rfl
+  | some r => simp [List.getElem?_mapIdx]
+
+theorem cell_mapFirst_old_or_mapped (k : Nat) (g : α → Nat → Nat → α) (rs : Rows α) (i j : Nat) :
+    Rows.cell (Rows.mapFirst k g rs) i j = Rows.cell rs i j ∨
+    Rows.cell (Rows.mapFirst k g rs) i j = (Rows.cell rs i j).map fun x => g x i j := by
+  rw [cell_mapFirst]
+  by_cases h : i * Rows.ncols rs + j < k
+  · right; simp [h]
+  · left; simp [h]
+
 end Matrix
 end EasyMl
